@@ -23,7 +23,7 @@ WR_NOTE = ("codec libraries replaced by a contract stub (consumes the source, wr
            "abstraction; the independent reference reader/writer in /verif is the oracle; session shapes are an enumerated bound, "
            "all sizes/CRCs/timestamps symbolic; payload bytes and real codecs are outside")
 CHECKS = {
-    "C05": dict(engine=B, ref="DESIGN.md §4 C05",
+    "C05": dict(engine=B, ref="DESIGN.md §3 (C05)",
                 technique="bounded symbolic execution of the real section parsers from the AST on every input of N bytes with a "
                           "count budget (a loop/allocation driven by a declared count that is not bounded by the input size is a "
                           "counterexample), one-step progress queries on the real decode loops with a decoder stub that may run "
@@ -33,53 +33,71 @@ CHECKS = {
                      "known findings K01-K04, replayed with 42-57-byte archives under RLIMIT_AS); (2) Worker.decompress and the "
                      "encoded-header loop of Header._read make progress or raise on every step even when the decoder returns "
                      "nothing and takes no input (fixed F16/F17); (3) get_memory_limit() for every RLIMIT_DATA / available-memory "
-                     "value (open known finding K05: 0 or negative at or below 256 MB).",
+                     "value (open known finding K05: 0 or negative at or below 256 MB); (4) every call sequence of length 2 (3) "
+                     "over extractall/extract/testzip terminates, including decoding twice WITHOUT reset() (an exhausted decoder "
+                     "answers nothing); (5) every decoder wrapper forwards the caller's max_length to its decoder, so no wrapper "
+                     "produces output beyond what was asked for (shared with C20).",
                 note="time/memory inside the C decoders, interpreter crashes, wrong-password flows (C11) and input-bounded quadratic "
                      "costs are outside; input length N and loop observations bounded as stated"),
-    "C11": dict(engine=B, ref="DESIGN.md §4 C11",
+    "C11": dict(engine=B, ref="DESIGN.md §3 (C11)",
                 technique="bounded symbolic execution of the real AES buffering (rope domain, taint by segment source), header-mode "
                           "setters + Header.write/_encode_header in a write session, AESCompressor.__init__/"
                           "encode_filter_properties with RNG/cipher stubs, SevenZipDecompressor.__init__; z3 decides",
                 text="Plumbing only: (1) AESCompressor output consists of cipher output only and the cipher sees input++padding in "
                      "order; (3) for every constructor flag and setter sequence of length <= 2 (3) the final header mode is the "
                      "documented one, with header encryption the member name never reaches the file in clear and the header chain "
-                     "ends in 7zAES, a password with default filters makes the payload chain end in 7zAES; (4) the IV given to AES "
-                     "and stored in the coder properties is the RNG output, the RNG is asked once for 16 bytes per compressor; "
+                     "ends in 7zAES, a password with default filters - the EMPTY string included - makes the payload chain end in "
+                     "7zAES; (4) the IV given to AES and stored in the coder properties is the RNG output, the RNG is asked for 16 "
+                     "bytes once per compressor and again for the next compressor (default arguments are evaluated at definition "
+                     "time, as Python does); "
                      "(5) any coder list of 1-4 coders containing 7zAES with password None raises PasswordRequired before any "
                      "decoder is built; (6) a wrong key = garbage decoder output is never delivered (C04 obligations).",
                 note="AES-CBC, SHA-256, KDF cost, statistical distinctness of IVs and 'no decodable compressed form' need the real "
                      "codecs: outside"),
-    "C20": dict(engine=B, ref="DESIGN.md §4 C20",
+    "C20": dict(engine=B, ref="DESIGN.md §3 (C20)",
                 technique="bounded symbolic execution of the real Worker.decompress/SevenZipCompressor/SevenZipDecompressor and the "
                           "decoder wrappers from the AST with recording stubs; z3 decides the per-step accounting",
                 text="py7zr's own accounting only: every decoder request is within min(what the folder still holds, memory limit), "
                      "source and archive reads are at most one block, bytes carried between calls equal produced minus delivered, "
+                     "every stage of a decoder chain is asked for at most what the caller asked for, "
                      "LZMA1/PPMd wrappers forward the caller's limit to the decoder (the wrappers that cannot are enumerated), "
                      "get_memory_limit() range (open known finding K05). Peak RSS and the 700 MiB figure are NOT decided.",
                 note="resident memory, allocation inside the C codecs and GB-sized members need measurement: outside this technique"),
-    "C02": dict(engine=B, ref="DESIGN.md §4 C02",
+    "C02": dict(engine=B, ref="DESIGN.md §3 (C02)",
                 technique="bounded symbolic execution of the real _make_file_info + ArchiveFile decoding from the AST over a symbolic "
-                          "st_mode (bit-vectors), and of ArchiveTimestamp.from_datetime/totimestamp over a per-binade linear model "
-                          "of IEEE-754 rounding; z3 decides",
-                text="Decided for the metadata ENCODING only (not for trees): (a) for every st_mode with type REG/DIR/LNK and any "
+                          "st_mode (bit-vectors), of ArchiveTimestamp.from_datetime/totimestamp over a per-binade linear model "
+                          "of IEEE-754 rounding, of _writeall on a stub node of symbolic kind, and of _extract incl. its post-pass "
+                          "on an in-memory filesystem model; z3 decides",
+                text="Decided for the metadata path of ONE member (not for trees): (a) for every st_mode with type REG/DIR/LNK and any "
                      "permission bits, every target mode and both dereference settings, the stored attribute word decodes back to "
                      "the same kind (directory / symlink / file), emptystream iff directory, posix_mode == S_IMODE of the effective "
-                     "mode; (b) for every double mtime in 1970..2100 the FILETIME conversion and back stays within 5 microseconds.",
-                note="the filesystem walk, real symlinks, os.utime/chmod, name handling on disk and the shutil/CLI front ends are "
-                     "outside – this check says nothing about trees; float model = exact result + round-to-nearest per binade with "
-                     "nondeterministic ties"),
-    "C03": dict(engine=B, ref="DESIGN.md §4 C03",
+                     "mode; (b) for every double mtime in 1970..2100 the FILETIME conversion and back stays within 5 microseconds; "
+                     "(c) one step of the _writeall walk for every node kind (file, directory, link to file / directory / nothing, "
+                     "other) x dereference: exactly the right nodes are written and recursed into, children in sorted order; "
+                     "(d) end to end for one member (file, empty file, directory; optionally followed by a symbolic link to it): "
+                     "source permission bits -> real _make_file_info -> reference-written archive -> real reader -> real _extract "
+                     "post-pass on the filesystem model: chmod receives exactly the source's 12 permission bits, utime the stored "
+                     "FILETIME (only when defined), the link is re-created with its target and nothing else is stamped.",
+                note="whole trees, real symlinks and syscalls, name handling on disk and the shutil/CLI front ends are outside; "
+                     "float model = exact result + |error| <= half an ulp per binade (relaxed, sound over-approximation) with the "
+                     "rule that doubles >= 2^53 are integers; the filesystem is the model of vf/harness/fakefs.py (validated "
+                     "against the real OS on a scripted battery each run)"),
+    "C03": dict(engine=B, ref="DESIGN.md §3 (C03)",
                 technique="bounded symbolic execution of the real get_sanitized_output_path / is_path_valid / canonical_path / "
-                          "is_relative_to from the AST over symbolic path components; z3 decides lexical containment",
+                          "is_relative_to from the AST over symbolic path components (lexical containment) and of the real "
+                          "_extract on an in-memory filesystem model with symbolic names/targets (physical containment); z3 decides",
                 text="(1) for every member name of up to 5 (6) components over {'', '.', '..', a, b, 'c:', probe name} and an "
                      "absolute destination or no destination (current directory): get_sanitized_output_path raises Bad7zFile or "
                      "returns a path whose location, after lexical '..' resolution, is the destination or beneath it; (2) every "
-                     "link target of up to 4 (5) components that is_path_valid accepts resolves lexically inside the destination. "
-                     "Physical resolution through links created by earlier entries is NOT decided by these two obligations "
-                     "(see DESIGN.md: known finding, symlink chain).",
-                note="pathlib model validated against real PurePosixPath each run; alphabet/length are the bound; filesystem "
-                     "effects, races, Windows junctions outside"),
-    "C19": dict(engine=B, ref="DESIGN.md §4 C19",
+                     "link target of up to 4 (5) components that is_path_valid accepts resolves lexically inside the destination; "
+                     "(3) the real _extract/_extract_single run on an in-memory POSIX filesystem model for archives of up to 3 "
+                     "entries (links, files, directories; names and link targets symbolic choices from tables, incl. a sibling "
+                     "directory sharing the destination's name as prefix): every mkdir/open/symlink/chmod/utime lands physically "
+                     "inside the destination (open known finding K06: a chain of individually acceptable links is followed).",
+                note="pathlib model validated against real PurePosixPath each run, the filesystem model against the real OS on a "
+                     "scripted battery each run; alphabet/length/tables are the bound; races, Windows junctions, pre-existing "
+                     "links in the destination are outside"),
+    "C19": dict(engine=B, ref="DESIGN.md §3 (C19)",
                 technique="z3 strings/regular expressions generated from the live compiled pattern and dict (volume sizes) and bounded "
                           "symbolic execution of the real Cli.run_test/run_extract from the AST against an archive stub failing at "
                           "a symbolic point",
@@ -90,7 +108,7 @@ CHECKS = {
                      "member) they return non-zero or let the exception escape.",
                 note="process exit status, argparse, printed text and the c/x/a tree round trips (delegated to the C02/C08 kernels) "
                      "are outside; SevenZipFile, open, is_7zfile are stubs"),
-    "C16": dict(engine=B, ref="DESIGN.md §4 C16",
+    "C16": dict(engine=B, ref="DESIGN.md §3 (C16)",
                 technique="bounded symbolic execution of the real check_archive_path/is_path_valid/canonical_path/is_relative_to "
                           "and _sanitize_archive_arcname from the AST over symbolic path components / characters; z3 decides "
                           "agreement with an independent lexical definition",
@@ -102,7 +120,7 @@ CHECKS = {
                      "state unchanged) is obligation C15.badname.",
                 note="pathlib pure-path operations are a model validated against real PurePosixPath on the whole alphabet each run; "
                      "component alphabet and length are the bound; random long Unicode names and the Windows flavour are outside"),
-    "C01": dict(engine=B, ref="DESIGN.md §4 C01",
+    "C01": dict(engine=B, ref="DESIGN.md §3 (C01)",
                 technique="bounded symbolic execution of the real buffering kernels from the AST in a rope domain (content-abstract "
                           "byte strings with symbolic, unbounded lengths) and of the real create session + reader on its header; z3 "
                           "(LIA) decides path∧¬post",
@@ -112,32 +130,36 @@ CHECKS = {
                      "size, fp receives exactly the last stage's output, packsize/digest/per-stage unpack sizes/member CRC cover "
                      "exactly those bytes; (3) SevenZipDecompressor.decompress over 2-3 (4) calls with any max_length, block size, "
                      "short reads, limit-honouring or -ignoring stages: chunks concatenate to a prefix of the ideal stream, each <= "
-                     "max_length, delivered+carried = produced, consumed <= packed size, digest covers what was returned; (4) what a "
-                     "create session writes into the header is read back by the real reader with the same names, order, sizes, "
-                     "CRCs, kinds; (5) UTF-16 names of every scalar value round-trip.",
+                     "max_length, delivered+carried = produced, consumed <= packed size, digest covers what was returned, every "
+                     "stage is asked for at most the caller's limit; (4) what a create session writes into the header - raw, or "
+                     "encoded through Header._encode_header and read back through the encoded-header branch - is read back by the "
+                     "real reader with the same names, order, sizes, CRCs, kinds; (5) UTF-16 names of every scalar value round-trip.",
                 note=WR_NOTE + "; rope domain is exact only for code that does not inspect content; loop/ call counts bounded as "
                      "stated, lengths unbounded; codecs, real files, multi-volume targets, parameter ranges are outside"),
-    "C14": dict(engine=B, ref="DESIGN.md §4 C14",
+    "C14": dict(engine=B, ref="DESIGN.md §3 (C14)",
                 technique="bounded symbolic execution of the real closing sequence (operation log with symbolic positions) and of "
                           "SignatureHeader write/_read on torn images new[0:p]++old[p:32] for all 33 prefixes; CRC collision-free; z3 decides",
                 text="(1) in create and append sessions every write at an offset >= 32 precedes the final 32-byte signature-header "
-                     "rewrite, and the placeholder written first cannot verify; (2) for every prefix p of the final rewrite and every "
+                     "rewrite, and the placeholder written first overwrites every byte of [0,32) and cannot verify; (2) for every prefix p of the final rewrite and every "
                      "value of the old and new header fields, a torn signature header that the real reader accepts is byte-identical "
                      "to the new header (commit happened) or, in append, to the old one; (3) appends write nothing into the old "
-                     "packed area (C08 obligation, re-checked on the log).",
+                     "packed area (C08 obligation, re-checked on the log); (4) a crash inside the placeholder write: EVERY file "
+                     "shorter than 32 bytes (symbolic content) is rejected by _check_7zfile + SignatureHeader._read, as is the "
+                     "complete placeholder.",
                 note="crash = prefix of the ordered write stream at byte granularity; OS reordering / dropped blocks, multivolume "
                      "files and CRC collisions are outside; codec stub and NUMBER tokens as in C07"),
-    "C08": dict(engine=B, ref="DESIGN.md §4 C08",
+    "C08": dict(engine=B, ref="DESIGN.md §3 (C08)",
                 technique="bounded symbolic execution of the real reader on a reference-written base header followed by the real "
                           "append path (_prepare_append, Header.initialize, _writef/write, flush_archive, Header.write) from the "
                           "AST; result parsed by the independent reference reader; z3 decides",
                 text="For every base layout of the shape set (incl. implicit substream sizes, folder-level CRCs, PackPos>0, partial "
-                     "attribute vectors, no packed streams) and append sessions adding 0-2 (3 thorough) members: every old member "
+                     "attribute vectors, no packed streams, no time/attribute property, a folder without members) and append sessions "
+                     "adding 0-2 (3 thorough) members of kinds data / directory / symbolic link: every old member "
                      "keeps name, kind, size, CRC, times, attributes, folder and offset; new members follow in order in a new "
                      "folder; old packed streams keep offset and size; the session writes nothing inside the old packed area and "
                      "starts exactly behind it; the new signature header describes the new header.",
                 note=WR_NOTE + "; encoded-header bases and writeall walks are outside"),
-    "C15": dict(engine=B, ref="DESIGN.md §4 C15",
+    "C15": dict(engine=B, ref="DESIGN.md §3 (C15)",
                 technique="bounded symbolic execution of the real write/writestr/writef/close paths from the AST with a fault "
                           "injected at each point (argument rejected, lstat/open raises, source read raises before/after "
                           "consumption); closed archive parsed by the reference reader; z3 decides",
@@ -146,7 +168,7 @@ CHECKS = {
                      "not retried), and for faults before any byte was consumed the closed archive lists exactly the successful "
                      "members with their sizes and CRCs.",
                 note=WR_NOTE + "; content after a midway source failure is left to the CRC checks (C04); faults inside codecs outside"),
-    "C18": dict(engine=B, ref="DESIGN.md §4 C18",
+    "C18": dict(engine=B, ref="DESIGN.md §3 (C18)",
                 technique="bounded symbolic execution of the real _extract/Worker.extract/_extract_single/decompress/reporter/close "
                           "from the AST with a recording queue, a symbolic non-decreasing clock and symbolic decoder chunking",
                 text="Single-worker event stream only: for every selection, chunking and clock the queue receives 'pre' first and "
@@ -156,7 +178,7 @@ CHECKS = {
                      "joins. Interleavings of worker and reporter threads, blocking callbacks and 'none after close()' are NOT "
                      "decided (no scheduler in this technique).",
                 note=RD_NOTE + "; threading.Thread is a stub; schedules are outside"),
-    "C04": dict(engine=B, ref="DESIGN.md §4 C04",
+    "C04": dict(engine=B, ref="DESIGN.md §3 (C04)",
                 technique="bounded symbolic execution of the real open/extract/testzip/test code from the AST against an adversarial "
                           "decoder stub (decoded stream altered from a symbolic offset) with CRC32 as a collision-free abstraction; "
                           "z3 decides 'success => every delivered member is unaltered'",
@@ -168,43 +190,47 @@ CHECKS = {
                      "with a defined CRC is unaltered, for every defined-vector and block size.",
                 note=RD_NOTE + "; what real decoders do with damaged input (raise or garbage) is covered by the stub allowing both; "
                      "CRC collisions and members stored without CRC are outside"),
-    "C12": dict(engine=B, ref="DESIGN.md §4 C12",
+    "C12": dict(engine=B, ref="DESIGN.md §3 (C12)",
                 technique="bounded symbolic execution of the real read-session methods from the AST, one shard per allowed call "
                           "sequence, stateful position-tracking decoder stubs cached by the real Folder.get_decompressor; z3 decides",
                 text="For every allowed call sequence of length <= 2 (3 thorough) over listings/test/testzip/extractall/extract/"
-                     "reset, on single- and multi-folder archives opened from a stream (and single-folder by path), with all sizes "
+                     "reset, on single- and multi-folder archives opened from a stream or by path (the thread-parallel branch under a "
+                     "sequential thread stand-in: one schedule) and archives without streams, with all sizes "
                      "and CRCs symbolic: every call returns what it returns on a fresh archive (delivery ranges, verdicts None/True "
                      "on an intact archive, full decode from the start of every folder for testzip), no call hangs on an exhausted "
                      "decoder, nothing is written to the archive file, and mode 'r' opens the file 'rb' only.",
-                note=RD_NOTE + "; thread-parallel branch (path-opened multi-folder) excluded (C13); sequences ended by exceptions "
+                note=RD_NOTE + "; interleavings of the thread-parallel branch are outside (C13); sequences ended by exceptions "
                      "other than those the stubs raise are outside"),
-    "C09": dict(engine=B, ref="DESIGN.md §4 C09",
+    "C09": dict(engine=B, ref="DESIGN.md §3 (C09)",
                 technique="bounded symbolic execution of the real extract()/_extract/Worker.extract/_extract_single/_check from the "
                           "AST; the target set is symbolic (one boolean per member); z3 decides path∧¬post",
                 text="For solid and multi-folder archives with directories and empty files (enumerated shapes) and every subset T of "
                      "the member names (list or set, with/without trailing slash and an absent name, recursive on/off) the factory "
                      "receives exactly the selected existing members, each with exactly its byte range of its folder's decoded "
-                     "stream, folders without a selected member are not decoded, and nothing is written to the archive.",
+                     "stream, and nothing is written to the archive.",
                 note=RD_NOTE + "; extraction to a directory and the parallel branch are outside"),
-    "C10": dict(engine=B, ref="DESIGN.md §4 C10",
+    "C10": dict(engine=B, ref="DESIGN.md §3 (C10)",
                 technique="bounded symbolic execution of the real listing interfaces (getnames/namelist/list/getinfo/archiveinfo/"
                           "needs_password, get_methods_names, SupportedMethods) from the AST on reference-written headers",
                 text="On every enumerated layout with symbolic sizes/CRCs: the four name listings agree with the stored order, "
                      "FileInfo sizes/CRCs/directory flags equal what the format assigns (and what extraction delivers, C06), "
                      "getinfo finds every name with or without trailing slash and raises KeyError otherwise, archiveinfo totals, "
                      "block count, solid flag and method names match the coders present, needs_password is true exactly when an "
-                     "AES coder is present or a password was supplied.",
+                     "AES coder is present or a password was supplied; get_methods_names names every coder of every chain of 1-2 "
+                     "(3) coders picked symbolically from the live table of supported methods, once, and nothing else.",
                 note=RD_NOTE + "; os.stat and FILETIME->datetime are stubs"),
-    "C06": dict(engine=B, ref="DESIGN.md §4 C06",
+    "C06": dict(engine=B, ref="DESIGN.md §3 (C06)",
                 technique="bounded symbolic execution of the real reader (_real_get_contents, Header/*Info._read, Worker.extract, "
                           "_extract_single, decompress) from the AST on reference-written headers with symbolic values; z3 decides",
                 text="For every layout in the enumerated shape set (1-3 folders, solid/non-solid, directory/empty-file entries "
                      "interleaved, folder-level or per-file or no CRCs, packed CRCs, PackPos>0, kDummy, EmptyFile vector, partially "
-                     "defined attribute/time vectors) and every value of the sizes/CRCs/timestamps, the real reader reports the "
-                     "names, kinds, sizes, digests, times, attributes and folder the format assigns, and extractall feeds every "
-                     "member exactly its byte range of its folder's decoded stream, read from where the packed stream lies.",
+                     "defined or absent attribute/time vectors, absent SubStreamsInfo, a folder without members) and every value of "
+                     "the sizes/CRCs/timestamps, the real reader reports the names, kinds, sizes, digests, times, attributes and "
+                     "folder the format assigns, and extractall feeds every member exactly its byte range of its folder's decoded "
+                     "stream, read from where the packed stream lies - to a factory, by path through the thread-parallel branch "
+                     "(sequential stand-in, one schedule), and to a directory on the filesystem model incl. the utime/chmod post-pass.",
                 note=RD_NOTE),
-    "C07": dict(engine=B, ref="DESIGN.md §4 C07",
+    "C07": dict(engine=B, ref="DESIGN.md §3 (C07)",
                 technique="bounded symbolic execution of the real write path (writestr/write/close, Header.write, SignatureHeader) "
                           "from the AST with a codec-contract stub; output parsed by an independent reference reader interpreted "
                           "on the same symbolic bytes; z3 decides path∧¬post",
@@ -212,12 +238,14 @@ CHECKS = {
                      "stages, with every member size, packed size, CRC and timestamp symbolic, the header bytes the real writer "
                      "emits are accepted by a reader written from the format text, carry the names/flags/sizes/CRCs that were "
                      "written, every declared property size equals the bytes that follow, packed sizes tile the data area and "
-                     "the signature header's offset/size/CRCs describe the bytes on disk. The primitive codecs (lemma L0) are "
-                     "re-proved over their full domains.",
+                     "the signature header's offset/size/CRCs describe the bytes on disk; for every filter list of the documented "
+                     "chains (with and without 7zAES) the coder chain built by SevenZipCompressor and rebuilt by "
+                     "SevenZipDecompressor has the same stages in mirrored order and per-stage unpack sizes that describe what each "
+                     "stage consumed. The primitive codecs (lemma L0) are re-proved over their full domains.",
                 note="codec libraries replaced by a contract stub; NUMBER fields summarised as tokens justified by L0; CRC32 "
                      "collision-free abstraction; member count/kinds enumerated as stated bounds; an independent reader "
                      "*decoding* real payloads and 7zAES key derivation are outside"),
-    "C17": dict(engine=B, ref="DESIGN.md §4 C17",
+    "C17": dict(engine=B, ref="DESIGN.md §3 (C17)",
                 technique="bounded symbolic execution of the real primitives from their AST; z3 decides path∧¬post on every path",
                 text="For the NUMBER codec the value ranges over the whole 0..2^64-1 domain (and every 9-byte string for the "
                      "decoder, against a decoder written from the specification), for boolean vectors every length 0..130 with "
